@@ -160,6 +160,8 @@ def check_fmax_competition(rep: Rep, pre: str, comp: Competition,
     w = comp.walker
     fn = comp.fn
     p = comp.p
+    from .rules_premise import check_entry_unconditional
+    check_entry_unconditional(rep, w, comp.loop.guards, pre + "IFT-entry", "the competition loop", comp.loop.line)
     rep.fn(pre + "IFT-policy", fn, f"Heap policy of the competition loop = {comp.policy!r}",
            comp.policy == "min",
            "" if comp.policy == "min" else "f_max optimum paths need a min-priority queue",
@@ -328,6 +330,8 @@ def check_prim(rep: Rep, pre: str, comp: Competition) -> None:
     w = comp.walker
     fn = comp.fn
     p = comp.p
+    from .rules_premise import check_entry_unconditional
+    check_entry_unconditional(rep, w, comp.loop.guards, pre + "PRIM-entry", "the spanning-tree loop", comp.loop.line)
     rep.fn(pre + "PRIM-policy", fn, f"Heap policy of the spanning-tree loop = {comp.policy!r}",
            comp.policy == "min", "Prim needs a min-priority queue", line=comp.loop.line)
     if comp.graph is None:
@@ -428,12 +432,15 @@ def strip_override(v: Term) -> Tuple[Term, List[Term]]:
 
 
 def check_fmin_clustering(rep: Rep, pre: str, comp: Competition, label_field: str,
-                          force_required: bool = False) -> dict:
+                          force_required: bool = False, entry_check: bool = True) -> dict:
     """label_field: 'predicted_label' (KNN-supervised) or 'cluster_label' (unsupervised)."""
     w = comp.walker
     fn = comp.fn
     p = comp.p
     info = {"override_conditions": []}
+    from .rules_premise import check_entry_unconditional
+    if entry_check:
+        check_entry_unconditional(rep, w, comp.loop.guards, pre + "CLU-entry", "the clustering loop", comp.loop.line)
     rep.fn(pre + "CLU-policy", fn, f"Heap policy of the clustering loop = {comp.policy!r}",
            comp.policy == "max", "f_min optimum paths need a max-priority queue", line=comp.loop.line)
     if comp.graph is None:
